@@ -193,7 +193,7 @@ def run(ctx):
         for p, k, bi in muts:
             if p == gt.path:
                 lib.held_at(ctx, '5b registry-insert-under-write-lock', gt, bi, '.DbInner.trees', 'a reader is registered with the trees lock held')
-                lk = [b2 for b2, t in gt.calls() if call_matches(t, ['re:HashMap.*::get$']) and '.DbInner.trees' in lib.receiver_fields(gt, t, 0)]
-                up = [b2 for b2, t in gt.calls() if call_matches(t, ['re:Weak.*::upgrade$'])]
+                lk = lib.field_effect_sites(gt, ['re:HashMap.*::get$'], '.DbInner.trees')
+                up = lib.sites_reaching(gt, ['re:Weak.*::upgrade$'])       # directly or inside a combinator closure
                 lib.precedes(ctx, '5c registry-consulted-first', gt, lk, [bi], 'a new reader is registered only after the registry was consulted')
-                ctx.ob('5d live-reader-returned', 'K1-must-pass', gt.path, 'get_tree upgrades the registered weak handle and returns it when alive (one lock per tree)', len(up) == 1, '')
+                ctx.ob('5d live-reader-returned', 'K1-must-pass', gt.path, 'get_tree upgrades the registered weak handle and returns it when alive (one lock per tree)', len(up) >= 1, '')
